@@ -68,6 +68,17 @@ SidecarKinds == {"fifo", "dangling", "loop", "socket", "dir"}
 SidecarCases == {{K("b.txt", "file", "none"), K("b.txt" \o DataEaExts[e], kd, "none")} : e \in DOMAIN DataEaExts, kd \in SidecarKinds}
                 \cup {{K("b.txt", "file", "none"), K("h", "dirabs", "none")}}
 
+\* link-file family (UMN): two or three dot link files, each DEFINING a menu item of its own; one of them cannot be
+\* read although it passed the isfile() probe of the enumeration loop: removed before the open (vanish2) or the open
+\* fails with EACCES / EIO - the unreadable one being the first, the middle or the last in name order
+Item(t) == [merge |-> TRUE, tgt |-> "item-" \o t, title |-> "Item " \o t, num |-> 0, x |-> FALSE, host |-> ""]
+LF(n, t, fault, en) == [KE(n, "file", fault, en) EXCEPT !.blocks = <<Item(t)>>]
+LinkNames == {<<".alpha", ".mid", ".omega">>, <<".Links", ".names">>}
+OpenFaults == {<<"vanish2", "">>, <<"eopen", "EACCES">>, <<"eopen", "EIO">>}
+LinkCases ==
+    UNION {{ {K("b.txt", "file", "none")} \cup {LF(ns[q], ns[q], IF q = bad THEN of[1] ELSE "none", IF q = bad THEN of[2] ELSE "") : q \in DOMAIN ns}
+               : bad \in 0..Len(ns), of \in OpenFaults} : ns \in LinkNames}
+
 KidsFor(n, r, F) ==
     {IF \E x \in F : x.i = q THEN (CHOOSE x \in F : x.i = q).k ELSE HealthyKid(q, r) : q \in 1..n}
 
@@ -91,6 +102,9 @@ Init == \/ \E s \in Scopes : \E n \in 1..s.maxn : \E r \in Rotations : \E F \in 
             /\ ValidCase(dd) /\ DirInit(dd)
             /\ ord \in (IF Cardinality(F) >= 2 THEN {"sorted"} ELSE OrderModes)
             /\ proto = "-"
+        \/ \E s \in {x \in Scopes : x.sidecars /\ DataLists[x.list].handler = "umn"} : \E ks \in LinkCases :
+            /\ DirInit(MkDir(s.sel, s.list, ks)) /\ ord \in OrderModes
+            /\ proto = "-"
         \/ \E s \in {x \in Scopes : x.sidecars} : \E ks \in SidecarCases :
             /\ DirInit(MkDir(s.sel, s.list, ks)) /\ ord = "sorted"
             /\ proto = "-"
@@ -107,6 +121,7 @@ GenSpec == Init /\ [][FALSE]_mcvars
 
 \* pairn = 2: directories that consist ONLY of unservable children (one, and two of them) are part of the quick tier;
 \* pairrots: the rotations (= name decorations) under which pairs are driven; sidecars: the side-car-shaped family
+\* and (UMN lists) the link-file family
 ScopesQuick    == {[sel |-> "/d", list |-> "default", maxn |-> 3, pairn |-> 2, pairrots |-> {1}, sidecars |-> TRUE],
                    [sel |-> "/x.", list |-> "default", maxn |-> 1, pairn |-> 0, pairrots |-> {}, sidecars |-> FALSE]}
 ScopesThorough == {[sel |-> "/d", list |-> "default", maxn |-> 4, pairn |-> 4, pairrots |-> {0, 1, 3}, sidecars |-> TRUE],
